@@ -474,7 +474,8 @@ class CHText:
             return self[:desired_len]
         if len_diff > 0:
             return self + " "*len_diff
-        return self
+        # a new object, as in the other cases: the text can be modified in place ("+=")
+        return CHText(self)
 
     def __format__(self, format_spec) -> str:
         """Support formatted printing.
